@@ -6,6 +6,7 @@ import (
 	"encoding/xml"
 	"fmt"
 	"net/http"
+	"regexp"
 	"strings"
 	"time"
 
@@ -383,7 +384,13 @@ func inCalDateGrammar(s string) bool {
 	return err == nil
 }
 
+var fractionalSecond = regexp.MustCompile(`[0-9]{2}:[0-9]{2}:[0-9]{2}[.,]`)
+
 func inHTTPDateGrammar(s string) bool {
+	// none of the three forms has a fraction of a second (time.Parse would accept one)
+	if fractionalSecond.MatchString(s) {
+		return false
+	}
 	// IMF-fixdate only is produced; obsolete forms are legal too
 	for _, f := range []string{http.TimeFormat, time.RFC850, time.ANSIC} {
 		if _, err := time.Parse(f, s); err == nil {
@@ -480,7 +487,9 @@ func c16Cases(full bool) []c16Case {
 			add("time", "reject", s, "")
 		}
 	}
-	for _, s := range []string{"", "Sun, 06 Nov 1994 08:49:37 UTC", "Sun, 32 Nov 1994 08:49:37 GMT", "Sun, 06 Nov 1994 24:49:37 GMT", "Sun, 06 Nov 1994 08:60:37 GMT", "1994-11-06T08:49:37Z", "784111777", "Sun, 06 Foo 1994 08:49:37 GMT", "Sun, 06 Nov 1994 08:49:37 +0000", "Sun, 06 Nov 1994 08:49:37"} {
+	for _, s := range []string{"", "Sun, 06 Nov 1994 08:49:37 UTC", "Sun, 32 Nov 1994 08:49:37 GMT", "Sun, 06 Nov 1994 24:49:37 GMT", "Sun, 06 Nov 1994 08:60:37 GMT", "1994-11-06T08:49:37Z", "784111777", "Sun, 06 Foo 1994 08:49:37 GMT", "Sun, 06 Nov 1994 08:49:37 +0000", "Sun, 06 Nov 1994 08:49:37",
+		// a fraction of a second is in neither grammar
+		"Sun, 06 Nov 1994 08:49:37.5 GMT", "Sun, 06 Nov 1994 08:49:37,25 GMT", "Sun, 06 Nov 1994 08:49:37.000 GMT"} {
 		if !inHTTPDateGrammar(s) {
 			add("time", "reject", s, "")
 		}
@@ -493,7 +502,8 @@ func c16Cases(full bool) []c16Case {
 	}
 	cv := "20200102T030405Z"
 	nb := editNeighbours(cv, []string{"0", "9", "T", "Z", "-", " "})
-	nb = append(nb, "20200102T030405", "20200102t030405Z", "20201302T030405Z", "20200230T030405Z", "20200102T250405Z", "20200102T036005Z", "2020-01-02T03:04:05Z", "20200102", "", "20200102T030405z", "20200102T030405+0000")
+	nb = append(nb, "20200102T030405", "20200102t030405Z", "20201302T030405Z", "20200230T030405Z", "20200102T250405Z", "20200102T036005Z", "2020-01-02T03:04:05Z", "20200102", "", "20200102T030405z", "20200102T030405+0000",
+		"20200102T030405.5Z", "20200102T030405,25Z", "20200102T030405.000Z")
 	if full {
 		seen := map[string]bool{}
 		for _, s1 := range editNeighbours(cv, []string{"0", "T", "Z"}) {
